@@ -153,8 +153,8 @@ theorem next_ok (d : D) (s : PhraseSel) (hr : RangeOK s)
 /-! ## Down / Space -/
 
 theorem selDownSpace_ok (hE : EnvOK env G) {sh : Shared D L} (h : ShInv env G sh) {s : Selecting}
-    (hs : SelInv env sh s) (hnt : selNoTable s) : SelResOK env G (selDownSpace env s sh) := by
-  obtain ⟨tp, hq, _⟩ := totalPage_ok hE h hs hnt
+    (hs : SelInv env sh s) : SelResOK env G (selDownSpace env s sh) := by
+  obtain ⟨tp, hq, _⟩ := totalPage_ok hE h hs
   unfold selDownSpace
   rw [hq]
   dsimp only
@@ -253,14 +253,14 @@ theorem selMove_ok {sh : Shared D L} (h : ShInv env G sh) {s : Selecting} (hs : 
 /-! ## digits, and all of `Selecting::next` for lists that are not symbol tables -/
 
 theorem selDigit_ok (hE : EnvOK env G) {sh : Shared D L} (h : ShInv env G sh) {s : Selecting}
-    (hs : SelInv env sh s) (hnt : selNoTable s) (c : Nat) : SelResOK env G (selDigit env s sh c) := by
-  obtain ⟨⟨s', sh', t⟩, hq, h1, h2, h3⟩ := select_ok hE h hs hnt (c - 1)
+    (hs : SelInv env sh s) (c : Nat) : SelResOK env G (selDigit env s sh c) := by
+  obtain ⟨⟨s', sh', t⟩, hq, h1, h2, h3⟩ := select_ok hE h hs (c - 1)
   unfold selDigit
   rw [hq]
   exact .ok ⟨h1, h2, h3⟩
 
 theorem selectingNext_ok (hE : EnvOK env G) {sh : Shared D L} {s : Selecting} (h : ShInv env G sh)
-    (hs : SelInv env sh s) (hnt : selNoTable s) (ev : KeyEvent) : SelResOK env G (selectingNext env s sh ev) := by
+    (hs : SelInv env sh s) (ev : KeyEvent) : SelResOK env G (selectingNext env s sh ev) := by
   have leafSpin : ∀ b, SelResOK env G (.ok ⟨sh, s, .spin b⟩) :=
     fun b => .ok ⟨h, fun _ _ => hs, fun st hst => (by cases hst)⟩
   have leafTo : ∀ sh' : Shared D L, ShInv env G sh' → SelResOK env G (.ok ⟨sh', s, .toState .entering⟩) :=
@@ -270,12 +270,12 @@ theorem selectingNext_ok (hE : EnvOK env G) {sh : Shared D L} {s : Selecting} (h
   refine selResOK_ite (fun _ => leafTo _ (cancel_inv h)) fun _ => ?_
   refine selResOK_ite (fun _ => leafTo _ (cancel_inv (h.congr rfl rfl rfl rfl rfl rfl))) fun _ => ?_
   refine selResOK_ite (fun _ => leafTo _ (cancel_inv h)) fun _ => ?_
-  refine selResOK_ite (fun _ => selDownSpace_ok hE h hs hnt) fun _ => ?_
+  refine selResOK_ite (fun _ => selDownSpace_ok hE h hs) fun _ => ?_
   refine selResOK_ite (fun _ => selMove_ok h hs _) fun _ => ?_
   refine selResOK_ite (fun _ => selMove_ok h hs _) fun _ => ?_
-  refine selResOK_ite (fun _ => selPrevPage_ok hE h hs hnt) fun _ => ?_
-  refine selResOK_ite (fun _ => selNextPage_ok hE h hs hnt) fun _ => ?_
-  refine selResOK_ite (fun _ => selDigit_ok hE h hs hnt _) fun _ => ?_
+  refine selResOK_ite (fun _ => selPrevPage_ok hE h hs) fun _ => ?_
+  refine selResOK_ite (fun _ => selNextPage_ok hE h hs) fun _ => ?_
+  refine selResOK_ite (fun _ => selDigit_ok hE h hs _) fun _ => ?_
   refine selResOK_ite (fun _ => ?_) fun _ => ?_
   · refine leafTo _ ?_
     exact (cancel_inv h).setComSame (ced_popCursor (cancel_inv h).ced) (by rw [popCursor_inner])
